@@ -73,7 +73,22 @@ def Kind.async : Kind → Bool
 structure Inst where
   float : Bool
   kind : Kind
+  /-- the meter (instrumentation scope) that creates the instrument: index into `scopeAttrs` -/
+  scope : Nat := 0
+  /-- name id `n` ("i<n>"); `none` = the instrument's position (single-meter histories) -/
+  name : Option Nat := none
+  /-- description / unit ids (0 = "") -/
+  desc : Nat := 0
+  unit : Nat := 0
 deriving Repr, BEq, DecidableEq
+
+/-- the meters of a history: (scope name id, version id, schema URL id); 0 = "" for version and schema.
+0 = {"c12"}, 1 = {"lib1","v1","s1"}, 2 = {"lib1","v2","s1"}, 3 = {"lib2","v1","s2"} -/
+def scopeAttrs : Nat → Nat × Nat × Nat
+  | 1 => (2, 1, 1)
+  | 2 => (2, 2, 1)
+  | 3 => (3, 1, 2)
+  | _ => (1, 0, 0)
 
 /-- stream / instrument names: instrument `j` is called "i<j>"; rename targets are "r<k>" or "R<k>" -/
 inductive Name where
@@ -114,17 +129,41 @@ structure View where
   rename : Option (Nat × Bool)
   filter : Option Filter
   agg : Option AggSel
+  /-- further criteria (`none` = zero value = not given): description, unit, scope name / version / schema URL -/
+  desc : Option Nat := none
+  unit : Option Nat := none
+  scopeName : Option Nat := none
+  scopeVersion : Option Nat := none
+  scopeSchema : Option Nat := none
 deriving Repr, BEq, DecidableEq
 
-/-- `NewView`: `emptyView` for empty criteria and for wildcard + rename -/
+/-- `NewView`: `emptyView` for empty criteria (`Instrument.IsEmpty`) and for wildcard + rename -/
 def View.valid (v : View) : Bool :=
-  !(v.pat == .none && v.kind == none) && !(v.pat.wild && v.rename.isSome)
+  !(v.pat == .none && v.kind == none && v.desc == none && v.unit == none && v.scopeName == none &&
+    v.scopeVersion == none && v.scopeSchema == none) &&
+  !(v.pat.wild && v.rename.isSome)
 
+/-- one non-name criterion: not given, or equal -/
+def critOK (c : Option Nat) (x : Nat) : Bool :=
+  match c with
+  | some n => n == x
+  | none => true
+
+def View.kindOK (v : View) (i : Inst) : Bool :=
+  match v.kind with
+  | some k => k == i.kind
+  | none => true
+
+/-- `Instrument.matchesScope` (instrument.go:124-128) -/
+def View.scopeOK (v : View) (i : Inst) : Bool :=
+  critOK v.scopeName (scopeAttrs i.scope).1 && critOK v.scopeVersion (scopeAttrs i.scope).2.1 &&
+  critOK v.scopeSchema (scopeAttrs i.scope).2.2
+
+/-- the match function of `NewView` (view.go:54-81): ALL given criteria must hold, in the exact-name branch
+(`criteria.matches`) and in the wildcard branch (regexp on the name, then description, kind, unit AND scope) alike.
+`j` is the instrument's name id. -/
 def View.matches (v : View) (j : Nat) (i : Inst) : Bool :=
-  v.valid && v.pat.matches j &&
-  (match v.kind with
-   | some k => k == i.kind
-   | none => true)
+  v.valid && v.pat.matches j && critOK v.desc i.desc && v.kindOK i && critOK v.unit i.unit && v.scopeOK i
 
 /-! ## aggregate functions -/
 
@@ -268,10 +307,14 @@ def Agg.runSteps (g : Agg) (tp : Temporality) : List AStep → Agg × List (List
 
 /-! ## pipelines -/
 
+/-- (lower-cased name, kind, number is float64, scope, description, unit) -/
+abbrev StreamKey := Name × Kind × Bool × Nat × Nat × Nat
+
 /-- one entry of `inserter.aggregators` (+ the `instrumentSync` it added to the pipeline) -/
 structure StreamSt where
-  /-- normalised id: lower-cased name, kind, number -/
-  key : Name × Kind × Bool
+  /-- the cache it lives in (one per meter) and the normalised id: lower-cased name, kind, number, and the
+  meter (scope), description and unit -/
+  key : StreamKey
   /-- first-seen casing (pipeline.go:408-410) -/
   name : Name
   float : Bool
@@ -287,7 +330,7 @@ structure Pipe where
   meas : List (List Nat) := []
 deriving Repr
 
-def findKey (streams : List StreamSt) (key : Name × Kind × Bool) : Option Nat :=
+def findKey (streams : List StreamSt) (key : StreamKey) : Option Nat :=
   streams.findIdx? fun s => decide (s.key = key)
 
 /-- `isAggregatorCompatible` (pipeline.go:552-592) for the aggregations a view can ask for -/
@@ -297,7 +340,9 @@ def incompatible (i : Inst) : Option AggSel → Bool
   | _ => false
 
 /-- the normalised instrument id a stream is cached under -/
-def streamKey (i : Inst) (name : Name) : Name × Kind × Bool := (name.norm, i.kind, i.float)
+def streamKey (i : Inst) (name : Name) : StreamKey := (name.norm, i.kind, i.float, i.scope, i.desc, i.unit)
+
+def StreamSt.scope (s : StreamSt) : Nat := s.key.2.2.2.1
 
 /-- `cachedAggregator`: returns the new cache and `some idx` when a measure function exists; an incompatible
 aggregation returns before the cache is consulted -/
@@ -350,7 +395,7 @@ def insertInstrument (limit : Nat) (views : List View) (j : Nat) (i : Inst) (str
 def Pipe.create (limit : Nat) (views : List View) (p : Pipe) : List Inst → Nat → Pipe
   | [], _ => p
   | i :: is, j =>
-    let (streams', m) := insertInstrument limit views j i p.streams
+    let (streams', m) := insertInstrument limit views (i.name.getD j) i p.streams
     Pipe.create limit views { p with streams := streams', meas := p.meas ++ [m] } is (j + 1)
 
 /-- one measure function call: `Builder.filter` then the aggregate function's `measure` -/
@@ -390,6 +435,7 @@ def Pipe.measure (p : Pipe) (j : Nat) (a : CSet) (x : Int) : Pipe :=
 
 /-- one reported metric: name, number type, data type, points (attribute id, payload) in map order -/
 structure Metric where
+  scope : Nat
   name : Name
   float : Bool
   dt : DT
@@ -405,7 +451,8 @@ def collectStreams (tp : Temporality) (t : Nat) : List StreamSt → List StreamS
     | some g =>
       let (g', pts) := g.collect tp t
       ({ s with agg := some g' } :: ss',
-       if pts.isEmpty then rest else { name := s.name, float := s.float, dt := g.dt, pts := pts } :: rest)
+       if pts.isEmpty then rest
+       else { scope := s.scope, name := s.name, float := s.float, dt := g.dt, pts := pts } :: rest)
 
 /-! ## the system: two readers on one provider -/
 
